@@ -270,6 +270,9 @@ def run_routine(case, forced=None):
     for k in range(case["ndays"]):
         cur = start + timedelta(days=k)
         rec = {"date": [cur.year, cur.month, cur.day], "crash": None}
+        # the weather input as the real check_weather will index it (day of year, hour 8, the site's cell)
+        t_ = cur.timetuple().tm_yday - 1
+        rec["workable"] = [1 if weather.winds[t_ * 24 + Method.HOUR, s_._widx, 0] <= 10 else 0 for s_ in sites]
         try:
             qflag = [pl._queued for pl in sched._survey_plans]
             qlen = sched._survey_queue.qsize()
@@ -311,7 +314,12 @@ def run_routine(case, forced=None):
                 outs.append([int(sid), st, today, int(rep.time_surveyed),
                              int(rep.time_surveyed_current_day)])
             rec["outcomes"] = outs
-            sched.update(wp, cur, False)
+            returned = sched.update(wp, cur, False)
+            # the survey reports the schedule hands back to the program: (site, completion date)
+            rec["completed_reports"] = [
+                [int(r.site_id), None if r.survey_completion_date is None else
+                 [r.survey_completion_date.year, r.survey_completion_date.month, r.survey_completion_date.day]]
+                for r in returned]
         except KeyError:
             rec["crash"] = "key_error"
             trace.append(rec)
@@ -421,6 +429,7 @@ def run_followup(case, ops_fn=None):
         rec["n_taken"] = len(rec["queue_before"]) - len(rec["queue_after_take"])
         rec["issued"] = []
         before = {sid: report_state(pl._active_survey_report) for sid, pl in wp.site_survey_planners.items()}
+        prior_counts = {int(sid): sum(pl._surveys_this_year.values()) for sid, pl in wp.site_survey_planners.items()}
         method.deploy_crews(wp, weather, None)
         reports, planners = wp.get_reports()
         rec["reports"] = sorted(int(x) for x in reports.keys())
@@ -442,6 +451,9 @@ def run_followup(case, ops_fn=None):
                          int(rep.time_surveyed_current_day)])
         rec["outcomes"] = outs
         sched.update(wp, cur, False)
+        # real completion counters of the planner objects (SurveyPlanner._surveys_this_year)
+        rec["real_done"] = sorted([int(sid), sorted([y, n] for y, n in pl._surveys_this_year.items())]
+                                  for sid, pl in planners.items())
         rec["queue"] = queue_content(sched)
         rec["heap_ok"] = queue_pop_order_check(sched)
         rec["flags"] = sorted(int(s) for s, v in flags.items() if v)
@@ -452,8 +464,9 @@ def run_followup(case, ops_fn=None):
         rec["done"] = sorted([int(sid), sum(planners[str(sid)]._surveys_this_year.values())]
                              for sid, st, *_ in outs if st == "C")
         for sid, st, *_ in outs:
-            if st == "C":
-                totals[int(sid)] += 1
+            # cumulative completions per site, read from the REAL counter of the planner object that was
+            # planned today (a planner that completed has {year: 1}; one that did not has {})
+            totals[int(sid)] += sum(planners[str(sid)]._surveys_this_year.values()) - prior_counts.get(int(sid), 0)
         rec["totals"] = dict(totals)
         trace.append(rec)
     return trace
